@@ -228,7 +228,6 @@ def jobs_for(tier):
         add("make_scalar", config=conf, root=root, shape=list(shape))
     if tier == "thorough":
         add("make_newton", n=2, root=3, max_iterations=1)
-        add("make_newton", n=2, root=2, max_iterations=3)
         add("make_higher", n=2, root="2", order=3, max_iterations=2)
         add("make_higher", n=2, root="3", order=2, max_iterations=1)
     return jobs
@@ -242,7 +241,7 @@ def run(tier, seed, argv):
     jobs = jobs_for(tier)
     if argv:
         jobs = [j for j in jobs if j["id"] in argv]
-    rep.bounds = dict(n="2 for the coupled iterations, 1 for the scalar path (diagonal path: C11)", newton="root 1..2, <=2 iterations (thorough: root 3 / 3 iterations)",
+    rep.bounds = dict(n="2 for the coupled iterations, 1 for the scalar path (diagonal path: C11)", newton="root 1..2, <=2 iterations (thorough: root 3 with 1 iteration; 3 iterations were tried and are beyond z3: unknown after 60 s)",
                       higher_order="order 2..3, root 1, 2, 1/2, <=2 iterations", epsilon_tolerance="symbolic > 0")
     rep.assumptions = ["NOT decided: the floating-point accuracy bound (n*u*cond), the effect of single-precision exponents, convergence speed",
                        "exact real arithmetic; norms are atoms that record their arguments; eigh/qr are environment stubs",
